@@ -3,9 +3,12 @@
    node <kind> <graph> <index> <parent> <sink> <san> <flt> <callee> <site> <csum> <args> <cls> <clsum> <bvs> <w> <rl> <dcn>
    edge <src> <dst> <index> <validated>     rel <=in> <=out>   (applies to the last edge)
    run <id> <src node> <fuel> <trace>   ->   res <id> term=.. ebe=.. lassocut=.. visited=.. flows=..
+   c06run <id> <src node> <fuel> <trace>  ->  c06 <id> term=.. ebe=.. keydet=.. domain=.. visited=.. flows=..
+       (C06: the per-run criterion `Argot.C06Real.inProvedDomain` of Props/C06Real.lean)
    reset
    lists are comma separated, "-" = empty list, "_" = none -/
 import Argot.Model.TaintVisit
+import Argot.Model.C06Real
 open Argot.TaintVisit Argot
 
 def pNats (s : String) : Option (List Nat) :=
@@ -77,6 +80,12 @@ def answer (st : St) (id : String) (src fuel : Nat) (trace : List Nat) : String 
   let iflows := if ebe then flows else (flowsOfIdeal st.g si).foldl (fun acc x => insertSorted x acc) []
   s!"res {id} term={b01 term} ebe={b01 ebe} lassocut={b01 cutAny} pathcut={b01 pcut} visited={s.visited.length} bad={st.bad} flows={showNats flows} idealterm={b01 si.queue.isEmpty} ideal={showNats iflows}"
 
+/-- C06: the decidable criterion of `taint_deterministic_of_flags`, evaluated on the model's own run -/
+def answerC06 (st : St) (id : String) (src fuel : Nat) (trace : List Nat) : String :=
+  let s := run st.g src trace fuel
+  let flows := (flowsOf st.g s).foldl (fun acc x => insertSorted x acc) []
+  s!"c06 {id} term={b01 s.queue.isEmpty} ebe={b01 (entryBeforeExit st.g src trace s)} keydet={b01 (Argot.C06Real.keyDetOn st.g src trace s)} domain={b01 (Argot.C06Real.inProvedDomain st.g src trace fuel)} visited={s.visited.length} bad={st.bad} flows={showNats flows}"
+
 def showItem (a : Item) : String :=
   s!"(node {a.node} trace {a.trace} ctrace {a.ctrace} ct {a.ct} tinfo {a.tinfo} paths {a.paths} prev {a.prev})"
 
@@ -123,6 +132,11 @@ partial def loop (h : IO.FS.Stream) (st : St) : IO Unit := do
   | ["run", id, src, fuel, tr] =>
     match src.toNat?, fuel.toNat?, pNats tr with
     | some src, some fuel, some tr => IO.println (answer st id src fuel tr)
+    | _, _, _ => IO.println s!"bad-record {id}"
+    loop h st
+  | ["c06run", id, src, fuel, tr] =>
+    match src.toNat?, fuel.toNat?, pNats tr with
+    | some src, some fuel, some tr => IO.println (answerC06 st id src fuel tr)
     | _, _, _ => IO.println s!"bad-record {id}"
     loop h st
   | ["explain", src, fuel, tr] =>
